@@ -94,6 +94,12 @@ func runC19(rc *RunCtx) {
 	}
 	rc.Nontrivial = nreads >= 2
 	rc.Probe(fmt.Sprintf("%s|%s|reads=%d", sc.Kind, sc.Fault, bucket(nreads)))
+	if sc.Fault != FNone {
+		rc.Fault(sc.Fault.String(), withHooks.Err != nil)
+	}
+	if len(sc.Chunks) >= 2 {
+		rc.Fault("reply_split_across_reads", nreads >= 2)
+	}
 	base := fmt.Sprintf("client=%s", sc.Kind)
 
 	if withHooks.Panic != nil || without.Panic != nil {
